@@ -673,6 +673,7 @@ func cmdCheck(args []string) {
 	for _, s := range stale {
 		fmt.Fprintln(os.Stderr, "STALE:", s)
 	}
+	os.RemoveAll(workDir) // (deferred calls do not run on os.Exit)
 	if violations > 0 {
 		os.Exit(1)
 	}
